@@ -203,6 +203,12 @@ def tasks(tier, seed):
                     out.append({"harness": "c18.scottish", "params": {"K": K, "names": names, "parties": parties, "ward": "Ward 3 - East, North", "ballot_rows": lay,
                                                                          "blank_after": blanks, "first_row_len": fl},
                                 "sig_keys": ["K", "first_row_len"], "name": f"scottish K={K} rows={lay} blanks={blanks} first_row_len={fl}", "xval_stride": 3, "weight": sum(lay)})
+    # ten and more candidates: 'Candidate 10' sorts before 'Candidate 2' as a string
+    many = [f"Cand {chr(65 + i)}" for i in range(12)]
+    mparties = [f"P{i}" for i in range(12)]
+    for K, lay in ((10, [2]), (11, [1, 1]), (12, [2])) if not q else ((11, [2]),):
+        out.append({"harness": "c18.scottish", "params": {"K": K, "names": many, "parties": mparties, "ward": "Ward 10", "ballot_rows": lay, "blank_after": [], "first_row_len": 2},
+                    "sig_keys": ["K", "first_row_len"], "name": f"scottish K={K} rows={lay}", "xval_stride": 5, "weight": 10, "split": 3})
     base = {"K": 2, "names": names, "parties": parties, "ward": "W", "ballot_rows": [2, 1], "blank_after": [], "first_row_len": 2}
     out.append({"harness": "c18.scottish", "params": base, "canary": "metadata-never-checked", "stop_on_violation": True, "name": "canary:metadata-never-checked", "xval_stride": 0})
     out.append({"harness": "c18.scottish", "params": base, "canary": "weights-ignore-multiplicity", "stop_on_violation": True, "name": "canary:weights-ignore-multiplicity", "xval_stride": 0})
@@ -211,6 +217,6 @@ def tasks(tier, seed):
 
 META = {
     "explanation": "load_scottish executed on a symbolic table: csv/os/open in votekit.cvr_loaders are replaced by stubs serving rows whose numeric cells (candidate count, seats, multiplicities, candidate numbers) are symbolic integers; accepted <=> metadata consistent, returned seats/ward/names/parties are the declared ones, every ranking is the declared mapping of its numbers and carries the summed multiplicity. Cross-validation and replays write a real CSV file and run the unpatched function",
-    "assumptions": ["load_csv and PreferenceProfile.to_csv are NOT covered (pandas' C parser / csv C writer need concrete bytes): no claim", "candidate numbers in 1..K, multiplicities in 1..50, K <= 3 candidates, <= 3 ballot rows of length <= 3",
+    "assumptions": ["load_csv and PreferenceProfile.to_csv are NOT covered (pandas' C parser / csv C writer need concrete bytes): no claim", "candidate numbers in 1..K, multiplicities in 1..50, K <= 3 candidates with <= 3 ballot rows of length <= 3, plus K = 10..12 with one or two short rows",
                     "candidate numbers are concretised by forking when used as dictionary keys"],
 }
